@@ -97,6 +97,125 @@ WqDocstring(n, B, Wq) == LET P == PowTab(n, B, n) IN \A k \in 2..n : Wq[k] = P[k
 WqIsPower(n, B, Wq) == WqShifted(n, B, Wq) \/ WqDocstring(n, B, Wq)
 TotalsAreSums(n, Wq, twalk, wlq) == <<twalk, wlq>> = FwTotals(n, Wq)
 
+(* ------------------------------------- walk counts beyond 32 bits (scale) ------ *)
+(* On 9 <= n <= 127 nodes the counts leave TLC's integers (K17: beyond 2^63, K30:     *)
+(* beyond 3.4e38) and, above 2^53, the floats of the code are not exact either.  What  *)
+(* the statement still implies is judged on an encoding of every returned float x      *)
+(* (harness/props/c18.py:big_enc) as three integers                                    *)
+(*     m, e :  x = m * 2^e exactly if |x| < 2^24 (then e = 0), else |m| in              *)
+(*             [2^23, 2^24) and |x - m 2^e| <= 2^e / 2        (24-bit mantissa)         *)
+(*     r    :  x mod p as an exact integer (p = BigP)                                   *)
+(* by four groups of clauses, none of which lets a number beyond 2^31 reach TLC:        *)
+(*   (a) counts are finite and non-negative;                                            *)
+(*   (b) EXACT where the count is small: the table of powers with every entry clipped   *)
+(*       at cap (ClipTab; min(cap, sum of clipped terms) = min(cap, sum) for            *)
+(*       non-negative terms) - an entry below cap is returned exactly, an entry >= cap  *)
+(*       is returned >= cap;                                                            *)
+(*   (c) EXACT below 2^53 (e <= 29), where a float that claims to be a count IS the      *)
+(*       count: its residue mod p equals the entry of the power computed mod p           *)
+(*       (ModTab); a wrong value survives with probability 1/p per entry;                *)
+(*   (d) the recurrence  Wq[k+1] = Wq[k] . A  between the RETURNED slices, up to the      *)
+(*       24-bit rounding of the encoding, in interval arithmetic on <<M, E, B>> =         *)
+(*       "a number within B units of M * 2^E" (FSum, FNear); relative tolerance about     *)
+(*       3 (indeg + 1) 2^-23; with slice 1 = A (by (b)) this pins every count;            *)
+(*   (e) closed form on regular graphs (complete, cycles, K(a,a), circulants): every      *)
+(*       row and column of the k-th power sums to degree^k (FPowSeq), all rows alike;     *)
+(*   (f) wlq / twalk: sums of the returned counts - exact mod p below 2^53, else FNear.   *)
+(* MC_RandomWalk.tla cross-checks ClipTab / ModTab against PowTab on every model input    *)
+(* (FwBigLemmaInv) and the whole clause set on K12 (exact up to 11^8) in ASSUMEs.         *)
+T24 == 16777216                  \* 2^24: cap of (b); n * T24 <= MAXI for n <= 127
+BigP == 999983                   \* prime; n * BigP <= MAXI
+Pow2Tab == TLCEval([d \in 0..30 |-> 2^d])
+Shr(x, d) == IF d > 30 THEN 0 ELSE x \div Pow2Tab[d]        \* x >= 0
+InNbTab(n, A) == TLCEval([j \in 1..n |-> {l \in 1..n : A[l][j] # 0}])
+(* tables 0..K of A^k with every entry clipped at cap / reduced mod p (A is 0/1)          *)
+RECURSIVE ClipSeq(_, _, _, _, _)
+ClipSeq(n, nb, K, cap, acc) ==
+  IF Len(acc) >= K + 1 THEN acc
+  ELSE LET P == acc[Len(acc)] IN
+       ClipSeq(n, nb, K, cap, Append(acc, EMat(n, LAMBDA i, j :
+         LET s == Sum(nb[j], LAMBDA l : P[i][l]) IN IF s > cap THEN cap ELSE s)))
+ClipTab(n, A, K, cap) ==
+  LET sq == ClipSeq(n, InNbTab(n, A), K, cap, <<Ident(n)>>) IN TLCEval([k \in 0..K |-> sq[k + 1]])
+RECURSIVE ModSeq(_, _, _, _, _)
+ModSeq(n, nb, K, p, acc) ==
+  IF Len(acc) >= K + 1 THEN acc
+  ELSE LET P == acc[Len(acc)] IN
+       ModSeq(n, nb, K, p, Append(acc, EMat(n, LAMBDA i, j : Sum(nb[j], LAMBDA l : P[i][l]) % p)))
+ModTab(n, A, K, p) ==
+  LET sq == ModSeq(n, InNbTab(n, A), K, p, <<Ident(n)>>) IN TLCEval([k \in 0..K |-> sq[k + 1]])
+
+(* interval arithmetic on <<M, E, B>>, 0 <= M < 2^24 after FNorm                           *)
+FNorm(M, E, B) ==
+  IF M < T24 THEN <<M, E, B>>
+  ELSE LET k == CHOOSE k \in 1..8 : Shr(M, k) < T24 /\ Shr(M, k - 1) >= T24
+       IN <<Shr(M, k), E + k, Shr(B, k) + 2>>
+(* sum over an index set L (at most 127 terms, each M < 2^24): align to the largest         *)
+(* exponent; a shifted term loses < 1 by the floor and its bound is rounded up               *)
+FSum(L, m(_), e(_), b(_)) ==
+  IF L = {} THEN <<0, 0, 0>> ELSE
+  LET E == MaxOf({e(l) : l \in L})
+      M == Sum(L, LAMBDA l : Shr(m(l), E - e(l)))
+      B == Sum(L, LAMBDA l : IF e(l) = E THEN b(l)
+                             ELSE IF m(l) = 0 /\ b(l) = 0 THEN 0 ELSE Shr(b(l), E - e(l)) + 2)
+  IN FNorm(M, E, B)
+(* can x and y enclose the same number?                                                      *)
+FNear(x, y) ==
+  LET E == IF x[2] >= y[2] THEN x[2] ELSE y[2] IN
+  Abs(Shr(x[1], E - x[2]) - Shr(y[1], E - y[2])) <= Shr(x[3], E - x[2]) + Shr(y[3], E - y[2]) + 4
+ObsB(e) == IF e = 0 THEN 0 ELSE 1
+Obs(m, e) == <<m, e, ObsB(e)>>
+(* d^0 .. d^K, 1 <= d <= 127                                                                 *)
+RECURSIVE FPowSeq(_, _, _)
+FPowSeq(d, K, acc) ==
+  IF Len(acc) >= K + 1 THEN acc
+  ELSE LET x == acc[Len(acc)] IN FPowSeq(d, K, Append(acc, FNorm(x[1] * d, x[2], x[3] * d)))
+FPowTab(d, K) == LET sq == FPowSeq(d, K, <<(<<1, 0, 0>>)>>) IN TLCEval([k \in 0..K |-> sq[k + 1]])
+
+(* the encoded result: Wm, We, Wr [k][i][j] for slices k = 1..K.  c = 0 the toolbox's        *)
+(* reading (slice k <-> A^k), c = 1 the docstring's (slice k <-> A^(k-1), k >= 2)            *)
+BigEncodingOK(n, K, Wm, We, Wr, p) ==
+  /\ DOMAIN Wm = 1..K /\ DOMAIN We = 1..K /\ DOMAIN Wr = 1..K
+  /\ \A k \in 1..K : /\ IsSquare(n, Wm[k]) /\ IsSquare(n, We[k]) /\ IsSquare(n, Wr[k])
+                     /\ \A i, j \in 1..n :
+                          /\ We[k][i][j] >= 0 /\ We[k][i][j] <= 2000
+                          /\ IsFinite(Wm[k][i][j]) => (Abs(Wm[k][i][j]) < T24 /\ Wr[k][i][j] \in 0..(p - 1))
+BigFinite(n, K, Wm) == \A k \in 1..K : \A i, j \in 1..n : IsFinite(Wm[k][i][j])
+BigNonNeg(n, K, Wm) == \A k \in 1..K : \A i, j \in 1..n : Wm[k][i][j] >= 0
+BigClipOK(n, K, C, cap, Wm, We, c) ==
+  \A k \in (1 + c)..K : \A i, j \in 1..n :
+     LET t == C[k - c][i][j] IN
+     IF t < cap THEN We[k][i][j] = 0 /\ Wm[k][i][j] = t
+     ELSE We[k][i][j] > 0 \/ Wm[k][i][j] >= cap
+BigModOK(n, K, R, We, Wr, c) ==
+  \A k \in (1 + c)..K : \A i, j \in 1..n : We[k][i][j] <= 29 => Wr[k][i][j] = R[k - c][i][j]
+BigRecOK(n, K, nb, Wm, We, c) ==
+  \A k \in (1 + c)..(K - 1) : \A i, j \in 1..n :
+     FNear(FSum(nb[j], LAMBDA l : Wm[k][i][l], LAMBDA l : We[k][i][l], LAMBDA l : ObsB(We[k][i][l])),
+           Obs(Wm[k + 1][i][j], We[k + 1][i][j]))
+(* the common in- and out-degree of a regular 0/1 digraph, else 0                            *)
+RegDeg(n, A) == LET d == OutStr(n, A, 1) IN
+  IF \A i \in 1..n : OutStr(n, A, i) = d /\ InStr(n, A, i) = d THEN d ELSE 0
+BigRowSum(n, Wm, We, k, i) ==
+  FSum(1..n, LAMBDA j : Wm[k][i][j], LAMBDA j : We[k][i][j], LAMBDA j : ObsB(We[k][i][j]))
+BigColSum(n, Wm, We, k, j) ==
+  FSum(1..n, LAMBDA i : Wm[k][i][j], LAMBDA i : We[k][i][j], LAMBDA i : ObsB(We[k][i][j]))
+BigRegularOK(n, K, A, Wm, We, c) ==
+  LET d == RegDeg(n, A) IN
+  (d >= 1 /\ d <= 127) =>
+     LET F == FPowTab(d, K) IN
+     \A k \in (1 + c)..K : \A i \in 1..n :
+        FNear(BigRowSum(n, Wm, We, k, i), F[k - c]) /\ FNear(BigColSum(n, Wm, We, k, i), F[k - c])
+(* totals: tw = <<m, e, r>>, wlm / wle / wlr [k]                                             *)
+BigTotalsOK(n, K, Wm, We, Wr, p, tw, wlm, wle, wlr) ==
+  /\ \A k \in 1..K :
+        LET rows == TLCEval([i \in 1..n |-> BigRowSum(n, Wm, We, k, i)]) IN
+        /\ FNear(FSum(1..n, LAMBDA i : rows[i][1], LAMBDA i : rows[i][2], LAMBDA i : rows[i][3]),
+                 Obs(wlm[k], wle[k]))
+        /\ wle[k] <= 29 => wlr[k] = Sum(1..n, LAMBDA i : Sum(1..n, LAMBDA j : Wr[k][i][j]) % p) % p
+  /\ FNear(FSum(1..K, LAMBDA k : wlm[k], LAMBDA k : wle[k], LAMBDA k : ObsB(wle[k])), Obs(tw[1], tw[2]))
+  /\ tw[2] <= 29 => tw[3] = Sum(1..K, LAMBDA k : wlr[k]) % p
+
 (* -------------------------------------------------- exact linear algebra ------- *)
 (* determinant of a small integer matrix (sequence of rows) by Laplace expansion   *)
 Minor(Mx, c) ==
